@@ -94,3 +94,67 @@ def headers_from_dict(d):
     main = []
     emit(d["declarations"], main, 0)
     return [wrap(d["cxx_header"], main)] + [wrap(n, b) for n, b in own]
+
+
+FUNC = re.compile(r"^(?P<ret>.*?)(?P<name>~?[A-Za-z_]\w*)\s*\((?P<params>.*)\)\s*(?P<const>const)?$")
+
+
+def _stub_function(decl, language, cls=None):
+    """trivial definition of a declared function / method; None for declarations that define nothing to link"""
+    d = strip_attrs(decl)
+    if re.match(r"^(enum|struct|typedef|class|namespace)\b", d):
+        return None
+    m = FUNC.match(d)
+    if not m:
+        raise ValueError("cannot synthesize a definition for %r" % decl)
+    ret, name, params, cst = m.group("ret").strip(), m.group("name"), m.group("params"), m.group("const")
+    params = re.sub(r"\s*=\s*[^,()]+", "", params)
+    static = False
+    if ret.startswith("static "):
+        ret, static = ret[7:].strip(), True
+    qual = (cls + "::") if cls else ""
+    if cls and (name == cls or name == "~" + cls):
+        return "%s%s(%s) {}" % (qual, name, params)
+    if ret == "void":
+        body = ""
+    elif ret.endswith("*") or language == "c":
+        body = " return 0; "
+    elif ret.endswith("&"):
+        base = ret[:-1].strip()
+        base = re.sub(r"^const\s+", "", base)
+        body = " static %s shroud_stub_value; return shroud_stub_value; " % base
+    else:
+        base = re.sub(r"^const\s+", "", ret)
+        body = " return %s(); " % base if " " not in base else " return (%s) 0; " % base
+    return "%s %s%s(%s)%s {%s}" % (ret, qual, name, params, " const" if cst else "", body)
+
+
+def stub_from_dict(d):
+    """(file name, text): every function and method of the description defined trivially, so that the generated wrappers can
+    be linked against it"""
+    language = d.get("language", "c++")
+    out = []
+    hdrs = [d["cxx_header"]]
+
+    def walk(decls, cls=None):
+        for e in decls:
+            decl = e["decl"]
+            if e.get("cpp_if"):
+                out.append("#" + e["cpp_if"])
+            if decl.startswith("class "):
+                if e.get("cxx_header"):
+                    hdrs.append(e["cxx_header"])
+                walk(e.get("declarations", []), cls=decl.split()[1])
+            elif decl.startswith("namespace "):
+                out.append("namespace %s {" % decl.split()[1])
+                walk(e.get("declarations", []))
+                out.append("}")
+            else:
+                f = _stub_function(decl, language, cls)
+                if f:
+                    out.append(f)
+            if e.get("cpp_if"):
+                out.append("#endif")
+    walk(d["declarations"])
+    name = d["library"] + "_stub_impl" + (".c" if language == "c" else ".cpp")
+    return name, "\n".join(['#include "%s"' % h for h in hdrs] + out) + "\n"
